@@ -32,6 +32,7 @@ class SemKit:
         self.f_ctx_new = self.prog.methods.get(("Context", None, "new"))
         self.f_sel_new = self.prog.methods.get(("SemanticErrorList", None, "new"))
         self.TV = self.prog.enums["Type"][0]
+        self.f_validate = self._fn("validate")
 
     def _fn(self, base):
         c = [f for raw, f in self.prog.funcs.items() if f.kind == "fn" and raw.split("::")[-1] == base and "<impl" not in raw and "{closure" not in raw]
@@ -54,6 +55,13 @@ class SemKit:
         errs = ex.run(self.f_sel_new, [PathV(("nofile",))])
         r = ex.run(self.f_sts, [Ref([src], 0), ctx, errs], tysubst={"T": "SourceString"})
         return r[0], r[1]
+
+    def validate(self, ex, root):
+        """oq3_syntax::validation::validate (the second source of syntax diagnostics in SourceFile::parse)"""
+        v = ex.run(self.f_validate, [Ref([root], 0)])
+        while isinstance(v, Ref):
+            v = v.get()
+        return v.items
 
     # ---- reading results
     def type_name(self, v):
